@@ -85,7 +85,9 @@ int main(int argc, char **argv) {
       if (ctx.expired()) { st.add("programs_skipped_deadline"); continue; }
       Item &it = items[i];
       std::vector<std::string> inputs = it.inputs;
-      if (inputs.empty()) { auto S = xrun::searchInputs(it.src, 2); for (auto &c : S.kept) inputs.push_back(c.input); if (inputs.size() > 6) inputs.resize(6); }
+      if (inputs.empty()) { auto S = xrun::searchInputs(it.src, 2); // every answer to the first read (all 7 byte values and end of input); for the second read the values at the edges of the byte range
+        for (auto &c : S.kept) { const std::string &w = c.input; bool edge = w.size() < 2 || (unsigned char)w.back() >= 0x80 || w.back() == 0; if (edge) inputs.push_back(w); }
+        if (inputs.size() > 40) inputs.resize(40); }
       st.add("programs");
       if (inputs.empty()) { st.add("programs_without_defined_case"); continue; }
       bool ok = it.isAsm ? ad::assemble_text(it.src, ad::A_FILE, R.binPath).kind == 0 : R.compile(it.src).status == 0;
